@@ -146,4 +146,169 @@ theorem readEntries (cl clBits : List Nat) (hc : ClCode cl clBits) (A : Nat) :
         simp only [show ¬ (17 = 16) by decide, ↓reduceIte, takeBits_bitsOf 3 extra _ (h17 rfl)]
         exact hrec _ rfl
 
+
+/-! ### every entry adds at least one length -/
+
+/-- a pending repeat count is at least 3 -/
+def WF (s : ExpandState) : Prop := ∀ v c, s.rep = some (v, c) → 3 ≤ c
+
+theorem pendingRepeat_ge (s : ExpandState) (h : WF s) (val : Nat) :
+    pendingRepeat s val = 0 ∨ 3 ≤ pendingRepeat s val := by
+  unfold pendingRepeat
+  cases hr : s.rep with
+  | none => left; rfl
+  | some p =>
+    obtain ⟨v, c⟩ := p
+    simp only
+    split
+    · right; exact h v c hr
+    · left; rfl
+
+theorem expandStep_grows (s : ExpandState) (h : WF s) (sym extra : Nat) :
+    WF (expandStep s sym extra) ∧
+    ∃ b, b ≠ [] ∧ (expandStep s sym extra).out = s.out ++ b := by
+  unfold expandStep
+  by_cases hlit : sym < 16
+  · simp only [hlit, ↓reduceIte]
+    exact ⟨fun v c hr => by simp at hr, [sym], by simp, rfl⟩
+  · simp only [hlit, ↓reduceIte]
+    generalize hval : (if sym = 16 then s.prevNonZero else 0) = val
+    rcases pendingRepeat_ge s h val with h0 | h3
+    · rw [h0]
+      simp only [gt_iff_lt, Nat.lt_irrefl, ↓reduceIte, Nat.zero_add, Nat.sub_zero]
+      refine ⟨?_, List.replicate (3 + extra) val, ?_, rfl⟩
+      · intro v c hr; simp at hr; omega
+      · simp [List.replicate_succ, show 3 + extra = (2 + extra) + 1 by omega]
+    · have hpos : pendingRepeat s val > 0 := by omega
+      simp only [hpos, ↓reduceIte]
+      have hk : 4 ≤ (if sym = 16 then 4 else 8) := by split <;> omega
+      have hmul : 4 * (pendingRepeat s val - 2)
+          ≤ (if sym = 16 then 4 else 8) * (pendingRepeat s val - 2) := Nat.mul_le_mul_right _ hk
+      refine ⟨?_, List.replicate ((if sym = 16 then 4 else 8) * (pendingRepeat s val - 2) + 3
+          + extra - pendingRepeat s val) val, ?_, rfl⟩
+      · intro v c hr; simp at hr; omega
+      · have : (if sym = 16 then 4 else 8) * (pendingRepeat s val - 2) + 3 + extra
+            - pendingRepeat s val
+            = ((if sym = 16 then 4 else 8) * (pendingRepeat s val - 2) + 3 + extra
+              - pendingRepeat s val - 1) + 1 := by omega
+        rw [this]; simp [List.replicate_succ]
+
+theorem run_grows (E : List (Nat × Nat)) : ∀ (s : ExpandState), WF s →
+    WF (run s E) ∧ ∃ b, (E ≠ [] → b ≠ []) ∧ (run s E).out = s.out ++ b := by
+  induction E with
+  | nil => intro s h; exact ⟨h, [], fun h => absurd rfl h, by simp⟩
+  | cons e E ih =>
+    intro s h
+    obtain ⟨h1, b1, hb1, ho1⟩ := expandStep_grows s h e.1 e.2
+    obtain ⟨h2, b2, _, ho2⟩ := ih (expandStep s e.1 e.2) h1
+    refine ⟨h2, b1 ++ b2, fun _ => by simp [hb1], ?_⟩
+    rw [run_cons, ho2, ho1, List.append_assoc]
+
+theorem kraftSum_append (L : Nat) (a b : List Nat) :
+    kraftSum L (a ++ b) = kraftSum L a + kraftSum L b := by
+  simp [kraftSum]
+
+theorem kraftSum_pos_of_last (b : List Nat) (hb : b ≠ []) (hl : b.getLast hb ≠ 0)
+    (h15 : b.getLast hb ≤ 15) : 1 ≤ kraftSum 15 b := by
+  have hmem := List.getLast_mem hb
+  have : ∀ (l : List Nat) (x : Nat), x ∈ l → x ≠ 0 → x ≤ 15 → 1 ≤ kraftSum 15 l := by
+    intro l
+    induction l with
+    | nil => intro x hx; simp at hx
+    | cons y ys ih =>
+      intro x hx h0 h15
+      simp only [kraftSum, List.map_cons, List.sum_cons]
+      rcases List.mem_cons.mp hx with rfl | hx'
+      · simp only [h0, ↓reduceIte]
+        have : 1 ≤ 2 ^ (15 - x) := Nat.pow_pos (by decide)
+        omega
+      · have := ih x hx' h0 h15
+        unfold kraftSum at this
+        omega
+  exact this b _ hmem hl h15
+
+/-- the reader does not stop before the last entry when the expansion is a
+complete length vector whose last length is non-zero -/
+theorem prefix_conditions (E : List (Nat × Nat)) (s0 : ExpandState) (hwf : WF s0) (A : Nat)
+    (hne : (run s0 E).out ≠ []) (hlast : (run s0 E).out.getLast hne ≠ 0)
+    (h15 : ∀ x ∈ (run s0 E).out, x ≤ 15) (hlen : (run s0 E).out.length ≤ A)
+    (hkr : kraftSum 15 (run s0 E).out = 32768) :
+    ∀ k, k < E.length → (run s0 (E.take k)).out.length < A ∧
+      kraftSum 15 (run s0 (E.take k)).out < 32768 := by
+  intro k hk
+  have hsplit : run s0 E = run (run s0 (E.take k)) (E.drop k) := by
+    rw [← run_append, List.take_append_drop]
+  obtain ⟨hwf1, _, _, _⟩ := run_grows (E.take k) s0 hwf
+  obtain ⟨_, b, hb, hob⟩ := run_grows (E.drop k) (run s0 (E.take k)) hwf1
+  have hbne : b ≠ [] := hb (by
+    intro h
+    have := congrArg List.length h
+    simp at this; omega)
+  rw [← hsplit] at hob
+  have hl2 : (run s0 E).out.getLast hne = b.getLast hbne := by
+    simp only [hob]
+    exact List.getLast_append_right hbne
+  have hb15 : b.getLast hbne ≤ 15 := by
+    rw [← hl2]; exact h15 _ (List.getLast_mem hne)
+  have hkb := kraftSum_pos_of_last b hbne (by rw [← hl2]; exact hlast) hb15
+  have hlb : 1 ≤ b.length := List.length_pos_iff.mpr hbne
+  rw [hob, kraftSum_append] at hkr
+  rw [hob, List.length_append] at hlen
+  omega
+
+
+theorem trim_last (d : List Nat) (h : trimTrailingZeros d ≠ []) :
+    (trimTrailingZeros d).getLast h ≠ 0 := by
+  unfold trimTrailingZeros at h ⊢
+  have hne : d.reverse.dropWhile (· == 0) ≠ [] := by
+    intro hh; rw [hh] at h; exact h rfl
+  rw [List.getLast_reverse]
+  have := List.head_dropWhile_not (fun x => x == 0) hne
+  simpa using this
+
+theorem kraftSum_replicate_zero (L n : Nat) : kraftSum L (List.replicate n 0) = 0 := by
+  unfold kraftSum
+  induction n with
+  | zero => rfl
+  | succ n ih => simp [List.replicate_succ]
+
+theorem kraftSum_trim (L : Nat) (d : List Nat) : kraftSum L (trimTrailingZeros d) = kraftSum L d := by
+  conv => rhs; rw [← trim_pad d]
+  rw [kraftSum_append, kraftSum_replicate_zero]; rfl
+
+/-- the entry list of `BrotliWriteHuffmanTree` for a complete depth vector,
+written with a usable code-length code, is read back to the depth vector -/
+theorem store_entries_roundtrip (cl clBits : List Nat) (hc : ClCode cl clBits) (d : List Nat)
+    (hd : ∀ x ∈ d, x ≤ 15) (hlen : d.length < 2 ^ 64) (hk : kraftSum 15 d = 32768)
+    (useNZ useZ : Bool)
+    (hvalid : ∀ e ∈ writeHuffmanTreeWith useNZ useZ d, ValidEntry cl e) (w rest : List Bool) :
+    ∃ bits, storeHuffmanTreeToBitMask cl clBits (writeHuffmanTreeWith useNZ useZ d) w
+        = .ok (w ++ bits) ∧
+      readLensGo cl d.length (d.length + 1) ⟨[], 8, none⟩ (bits ++ rest) = some (d, rest) := by
+  refine ⟨_, storeEntries_ok cl clBits hc _ w hvalid, ?_⟩
+  have hd' : ∀ x ∈ trimTrailingZeros d, x < 16 :=
+    trim_lt d (fun x hx => Nat.lt_succ_of_le (hd x hx))
+  have hl := trim_length_le d
+  have hrt := writeLoop_roundtrip useNZ useZ _ (trimTrailingZeros d) rfl
+    (by unfold u64; omega) hd' 8 ⟨[], 8, none⟩ rfl (by intro x _; rfl)
+  have hout : (run ⟨[], 8, none⟩ (writeHuffmanTreeWith useNZ useZ d)).out = trimTrailingZeros d := by
+    simpa [writeHuffmanTreeWith] using hrt
+  have hkt : kraftSum 15 (trimTrailingZeros d) = 32768 := by rw [kraftSum_trim]; exact hk
+  have hne : trimTrailingZeros d ≠ [] := by
+    intro h; rw [h] at hkt; simp [kraftSum] at hkt
+  have hwl := writeLoop_length useNZ useZ _ (trimTrailingZeros d) rfl (by unfold u64; omega) 8
+  have hElen : (writeHuffmanTreeWith useNZ useZ d).length ≤ d.length := by
+    unfold writeHuffmanTreeWith; omega
+  have hwf : WF ⟨[], 8, none⟩ := fun v c h => by simp at h
+  have hpre := prefix_conditions (writeHuffmanTreeWith useNZ useZ d) ⟨[], 8, none⟩ hwf d.length
+    (by rw [hout]; exact hne)
+    (by
+      have := trim_last d hne
+      simpa [hout] using this)
+    (by rw [hout]; intro x hx; have := hd' x hx; omega)
+    (by rw [hout]; exact hl) (by rw [hout]; exact hkt)
+  have := readEntries cl clBits hc d.length (writeHuffmanTreeWith useNZ useZ d) ⟨[], 8, none⟩
+    (d.length + 1) rest hvalid (by omega) hpre (by rw [hout]; exact hl) (by rw [hout]; exact hkt)
+  rw [this, hout, trim_pad]
+
 end BV.Lemmas.HuffmanStoreRead
